@@ -26,7 +26,8 @@ func init() {
 			"(R) the rendezvous channel is unbuffered, created once per client activation, received from at one site outside any loop; " +
 			"(A) the request/backend IDs travel unchanged, in the right parameter roles, from the pending list to the upload headers. " +
 			"Not decided: interleavings inside net/http, collision probability of the 256-bit IDs, byte identity of the relayed payloads. " +
-			"(M) no long-lived closure (handler, ModifyResponse hook) writes into byte storage captured from its creator, no package-level byte buffer is written, no sync.Pool traffic, and goroutines started in loops capture only per-iteration variables — a shared scratch buffer or loop variable hands one client another client's bytes; (C) the App Engine proxy's GET response cache is looked up and stored under one key that is fmt.Sprintf with both components (user e-mail, full URL) rendered by %q and never shortened, only for GET.",
+			"(M) no long-lived closure (handler, ModifyResponse hook) writes into byte storage captured from its creator, no package-level byte buffer is written, no sync.Pool traffic, and goroutines started in loops capture only per-iteration variables — a shared scratch buffer or loop variable hands one client another client's bytes; (C) the App Engine proxy's GET response cache is looked up and stored under one key that is fmt.Sprintf with both components (user e-mail, full URL) rendered by %q and never shortened, only for GET. " +
+			"(S, second part) the session counter is modified by exactly one positive constant increment; (B) App Engine blob parts are recorded in loop order under the names they are stored with and read back with one ordered GetMulti.",
 		Assumptions: []string{
 			"net/http server/transport do not mix bodies of different connections",
 			"sha256 of a 63-bit draw is collision-free for distinct draws (IDs are distinct iff draws are distinct)",
@@ -88,7 +89,7 @@ func runC01(c *Ctx) {
 	p := c.Progs["mod"]
 
 	// ---- C01.L
-	c.Rule("C01.L", "lockset: every access to proxy.requests and proxy.randGenerator outside the constructor holds proxy.Mutex", 4)
+	c.Rule("C01.L", "lockset: every access to proxy.requests and proxy.randGenerator outside the constructor holds proxy.Mutex", 3)
 	checkGuards(c, p, "C01.L", c01Guards)
 
 	// ---- C01.K
@@ -230,7 +231,7 @@ func runC01(c *Ctx) {
 		} else {
 			_, size, ok := MakeChanSize(sts[0].Val)
 			c.Check("C01.R", "respChan:unbuffered", p, sts[0].Pos(), ok && size == 0, "respChan is make(chan, 0): a response is in exactly one place at a time", fmt.Sprintf("respChan is not an unbuffered make(chan): size=%d const=%v (%s)", size, ok, PathOf(sts[0].Val)))
-			c.Check("C01.R", "respChan:created-in-constructor", p, sts[0].Pos(), sts[0].Parent() == f, "created in newPendingRequest", "respChan is stored outside newPendingRequest: "+FuncName(sts[0].Parent()))
+			c.Check("C01.R", "respChan:created-in-constructor", p, sts[0].Pos(), Owner(sts[0]) == f, "created in newPendingRequest", "respChan is stored outside newPendingRequest: "+FuncName(sts[0].Parent()))
 		}
 	}
 	{
@@ -238,7 +239,7 @@ func runC01(c *Ctx) {
 		for _, fn := range serverFns {
 			calls = append(calls, Calls(fn, ModPath+"/server.newPendingRequest")...)
 		}
-		ok := len(calls) == 1 && FuncName(calls[0].Parent()) == "server.(*proxy).ServeHTTP" && !InLoop(calls[0].Block())
+		ok := len(calls) == 1 && FuncName(Owner(calls[0])) == "server.(*proxy).ServeHTTP" && !InLoop(calls[0].Block())
 		c.Check("C01.R", "pending:one-per-activation", p, posOf(calls), ok, "newPendingRequest is called once per ServeHTTP activation, outside any loop", fmt.Sprintf("newPendingRequest call sites: %d (must be exactly one, in ServeHTTP, not in a loop)", len(calls)))
 		var recvs []ChanOp
 		for _, op := range ChanFieldOps(serverFns, "server.pendingRequest", "respChan") {
@@ -279,6 +280,27 @@ func runC01(c *Ctx) {
 				}
 			}
 		}
+		if len(rs) == 1 && !ok {
+			// hex.EncodeToString(sum[:]) of the whole array is the same string as Sprintf("%x", sum)
+			if hx := CallResult(ReturnValue(rs[0], 0), 0, "encoding/hex.EncodeToString"); hx != nil {
+				if sl, isS := hx.Call.Args[0].(*ssa.Slice); isS && sl.Low == nil && sl.High == nil {
+					if al, isA := sl.X.(*ssa.Alloc); isA {
+						if at, isArr := derefT(al.Type()).Underlying().(*types.Array); isArr && at.Len() == 32 {
+							n, whole := 0, true
+							for _, r := range Refs(al) {
+								if st, isSt := r.(*ssa.Store); isSt && st.Addr == ssa.Value(al) {
+									n++
+									if CallResult(st.Val, 0, "crypto/sha256.Sum256") == nil {
+										whole = false
+									}
+								}
+							}
+							ok = n == 1 && whole
+						}
+					}
+				}
+			}
+		}
 		c.Check("C01.G", "newID:full-width", p, f.Pos(), ok, "ID = hex of the whole 32-byte SHA-256 sum", why)
 		draws := Calls(f, "(*math/rand.Rand).Int63", "(*math/rand.Rand).Uint64", "(*math/rand.Rand).Int", "crypto/rand.Read", "(*math/rand.Rand).Read")
 		small := Calls(f, "(*math/rand.Rand).Intn", "(*math/rand.Rand).Int31", "(*math/rand.Rand).Int31n", "(*math/rand.Rand).Int63n", "(*math/rand.Rand).Uint32", "math/rand.Intn", "math/rand.Int")
@@ -288,12 +310,15 @@ func runC01(c *Ctx) {
 	// ---- C01.S
 	c.Rule("C01.S", "websocket-shim sessions: unique session IDs (a shared ID hands one client the other's messages)", 2)
 	ruleShimSessionIDs(c, p, "C01.S")
+	ruleCounterOnlyIncrements(c, p, "C01.S")
 
 	// ---- C01.A
 	c.Rule("C01.M", "no response bytes pass through scratch memory shared between activations (captured or package-level buffers, pools, loop variables shared by worker goroutines)", 3)
 	ruleSharedScratch(c, p, "C01.M", "agent", "agent/utils", "agent/websockets", "agent/banner", "agent/sessions", "server")
 	ruleLoopSharedCapture(c, p, "C01.M", 1, "agent", "agent/utils", "server")
 	rulePooledMemory(c, p, "C01.M", "agent", "agent/utils", "agent/websockets", "agent/banner", "agent/sessions", "server")
+	c.Rule("C01.B", "App Engine store: multi-part bodies are recorded and read back in part order (= C19.K)", 2)
+	ruleBlobParts(c, p, "C01.B")
 	c.Rule("C01.C", "App Engine proxy GET response cache: one injective key of (user, URL)", 5)
 	ruleAppResponseCacheKey(c, p, "C01.C")
 	c.Rule("C01.A", "chain of custody of (backend ID, request ID) through the agent, by parameter role", 35)
